@@ -122,4 +122,29 @@ theorem bound_all (doc : Doc) (limit : Nat) :
     · show max st.high (path.length + 1) ≤ limit + 1
       omega
 
+theorem keyLe_total (a b : Key) : (keyLe a b || keyLe b a) = true := by
+  cases a with
+  | none => simp [keyLe]
+  | some x =>
+    cases b with
+    | none => simp [keyLe]
+    | some y =>
+      obtain ⟨f1, o1⟩ := x; obtain ⟨f2, o2⟩ := y
+      simp only [keyLe, Bool.or_eq_true, Bool.and_eq_true, decide_eq_true_eq, beq_iff_eq]
+      omega
+
+theorem keyLe_trans (a b c : Key) (h1 : keyLe a b = true) (h2 : keyLe b c = true) : keyLe a c = true := by
+  cases a with
+  | none => simp [keyLe]
+  | some x =>
+    cases b with
+    | none => simp [keyLe] at h1
+    | some y =>
+      cases c with
+      | none => simp [keyLe] at h2
+      | some z =>
+        obtain ⟨f1, o1⟩ := x; obtain ⟨f2, o2⟩ := y; obtain ⟨f3, o3⟩ := z
+        simp only [keyLe, Bool.or_eq_true, Bool.and_eq_true, decide_eq_true_eq, beq_iff_eq] at *
+        omega
+
 end Apollo.Guards
